@@ -10,6 +10,7 @@ package main
 // Everything else must be identical.
 
 import (
+	"bytes"
 	"fmt"
 	"math"
 	"math/big"
@@ -70,8 +71,33 @@ type mismatch struct {
 }
 
 func diff(a, b reflect.Value, path string) *mismatch {
+	m := diff1(a, b)
+	if m != nil {
+		m.Path = path + m.Path
+	}
+	return m
+}
+
+func under(m *mismatch, seg string) *mismatch {
+	if m != nil {
+		m.Path = seg + m.Path
+	}
+	return m
+}
+
+func bytesOf(v reflect.Value) ([]byte, bool) {
+	if v.Kind() == reflect.Slice {
+		return v.Bytes(), true
+	}
+	if v.CanAddr() {
+		return v.Slice(0, v.Len()).Bytes(), true
+	}
+	return nil, false
+}
+
+func diff1(a, b reflect.Value) *mismatch {
 	t := a.Type()
-	mm := func(what string) *mismatch { return &mismatch{Path: path, Leaf: t.String(), What: what} }
+	mm := func(what string) *mismatch { return &mismatch{Leaf: t.String(), What: what} }
 	switch {
 	case t == atomicValType:
 		return nil
@@ -131,12 +157,22 @@ func diff(a, b reflect.Value, path string) *mismatch {
 		if a.Len() != b.Len() {
 			return mm(fmt.Sprintf("len %d != len %d", a.Len(), b.Len()))
 		}
+		if isByteKind(t.Elem()) {
+			xa, ok1 := bytesOf(a)
+			xb, ok2 := bytesOf(b)
+			if ok1 && ok2 {
+				if !bytes.Equal(xa, xb) {
+					return mm(fmt.Sprintf("%x != %x", xa, xb))
+				}
+				return nil
+			}
+		}
 		for i := 0; i < a.Len(); i++ {
-			if m := diff(a.Index(i), b.Index(i), path+"[]"); m != nil {
+			if m := diff1(a.Index(i), b.Index(i)); m != nil {
 				if isByteKind(t.Elem()) {
 					return mm(fmt.Sprintf("byte %d: %s", i, m.What))
 				}
-				return m
+				return under(m, "[]")
 			}
 		}
 	case reflect.Ptr:
@@ -151,7 +187,7 @@ func diff(a, b reflect.Value, path string) *mismatch {
 				return mm("non-nil became nil")
 			}
 		default:
-			return diff(a.Elem(), b.Elem(), path)
+			return diff1(a.Elem(), b.Elem())
 		}
 	case reflect.Interface:
 		switch {
@@ -170,13 +206,13 @@ func diff(a, b reflect.Value, path string) *mismatch {
 				if x.IsNil() {
 					return nil
 				}
-				return diff(x.Elem(), y.Elem(), path+"("+x.Type().Elem().String()+")")
+				return under(diff1(x.Elem(), y.Elem()), "("+x.Type().Elem().String()+")")
 			}
 			// non-addressable concrete value inside an interface: copy to make unexported fields readable
 			xc, yc := reflect.New(x.Type()).Elem(), reflect.New(y.Type()).Elem()
 			xc.Set(x)
 			yc.Set(y)
-			return diff(xc, yc, path+"("+x.Type().String()+")")
+			return under(diff1(xc, yc), "("+x.Type().String()+")")
 		}
 	case reflect.Map:
 		if a.Len() != b.Len() {
@@ -191,7 +227,7 @@ func diff(a, b reflect.Value, path string) *mismatch {
 			ac, bc := reflect.New(av.Type()).Elem(), reflect.New(bv.Type()).Elem()
 			ac.Set(av)
 			bc.Set(bv)
-			if m := diff(ac, bc, path+"[key]"); m != nil {
+			if m := diff1(ac, bc); m != nil {
 				return mm(fmt.Sprintf("value of key %x: %s", k.Interface(), m.What))
 			}
 		}
@@ -201,8 +237,8 @@ func diff(a, b reflect.Value, path string) *mismatch {
 			if !fa.CanInterface() {
 				fa, fb = readable(fa), readable(fb)
 			}
-			if m := diff(fa, fb, path+"."+t.Field(i).Name); m != nil {
-				return m
+			if m := diff1(fa, fb); m != nil {
+				return under(m, "."+t.Field(i).Name)
 			}
 		}
 	}
